@@ -7,7 +7,7 @@
    [on_circle a] says cos^2 + sin^2 = 1; [rt] is instantiated with the real [sqrt];
    vectors are tuples, matrices tuples of rows; [is_rot m] = "m^T m = I and det m = 1". *)
 From Coq Require Import Reals List Bool.
-From Verif Require Import Base.Num C19.Model C19.Proofs.
+From Verif Require Import Base.Num C19.Model Gen.GeometryFormulas C19.Proofs.
 Import ListNotations.
 Local Open Scope R_scope.
 
@@ -49,6 +49,40 @@ Theorem rotation_preserves_inner_products :
      mm3 (tr3 m) m = id3 -> dot3 (mv3 m v) (mv3 m w) = dot3 v w).
 Proof. exact rotation_preserves_inner_products_l. Qed.
 Print Assumptions rotation_preserves_inner_products.
+
+(* ---- tie to the source by REGENERATION: Gen/GeometryFormulas.v holds the matrix literals of euler_matrix, the
+   entries of axis_rotation_matrix (cos*I + (1-cos)*outer + sin*cross, re-assembled from the source expression)
+   and the native surface / surface_deriv vectors of the curved detectors, re-emitted from /repo on every run by
+   translate/geometry_formulas.py (fail closed).  The hand-written model IS these formulas, and the generated
+   matrices are rotations -- a changed sign in one source entry breaks these proofs. *)
+Theorem model_uses_generated_rotation_formulas :
+  (forall c s : R, euler2 (c, s) = gen_euler2 c s) /\
+  (forall c1 s1 c2 s2 c3 s3 : R, euler3 (c1, s1) (c2, s2) (c3, s3) = gen_euler3 c1 s1 c2 s2 c3 s3) /\
+  (forall x y z c s : R, axis_rot (x, y, z) (c, s) = gen_axis_rot x y z c s).
+Proof. exact model_is_generated_rotations. Qed.
+Print Assumptions model_uses_generated_rotation_formulas.
+
+Theorem generated_rotation_matrices_are_rotations :
+  (forall c s : R, c * c + s * s = 1 -> is_rot2 (gen_euler2 c s)) /\
+  (forall c1 s1 c2 s2 c3 s3 : R, c1 * c1 + s1 * s1 = 1 -> c2 * c2 + s2 * s2 = 1 -> c3 * c3 + s3 * s3 = 1 ->
+     is_rot3 (gen_euler3 c1 s1 c2 s2 c3 s3)) /\
+  (forall x y z c s : R, x * x + y * y + z * z = 1 -> c * c + s * s = 1 -> is_rot3 (gen_axis_rot x y z c s)).
+Proof. exact generated_rotations_are_rotations. Qed.
+Print Assumptions generated_rotation_matrices_are_rotations.
+
+Theorem model_uses_generated_surface_formulas :
+  (forall (ax : R * R) (r u cu su : R),
+     surf2 (Circ ax r) (u, (cu, su)) = add2 (mv2 (circ_rot ax) (gen_circ_surf cu su r)) (circ_transl ax r) /\
+     deriv2 (Circ ax r) (u, (cu, su)) = mv2 (circ_rot ax) (gen_circ_deriv cu su r)) /\
+  (forall (a0 a1 : R * R * R) (r : R) m (u v cu su cv sv : R),
+     surf3 (Cyl a0 a1 r m) (u, v, (cu, su), (cv, sv)) = add3 (mv3 m (gen_cyl_surf cu su v r)) (curved_transl r m) /\
+     deriv3 (Cyl a0 a1 r m) (u, v, (cu, su), (cv, sv)) = (mv3 m (gen_cyl_dphi cu su r), mv3 m (0, 0, 1))) /\
+  (forall (a0 a1 : R * R * R) (r : R) m (u v cu su cv sv : R),
+     surf3 (Sph a0 a1 r m) (u, v, (cu, su), (cv, sv)) = add3 (mv3 m (gen_sph_surf cu su cv sv r)) (curved_transl r m) /\
+     deriv3 (Sph a0 a1 r m) (u, v, (cu, su), (cv, sv)) =
+       (mv3 m (gen_sph_dphi cu su cv sv r), mv3 m (gen_sph_dtheta cu su cv sv r))).
+Proof. exact model_is_generated_surfaces. Qed.
+Print Assumptions model_uses_generated_surface_formulas.
 
 (* ====== 2. detector point = reference point + rotated surface point; rigid motion ====== *)
 (* By definition of the model (Geometry.det_point_position) the detector point IS
@@ -271,22 +305,59 @@ Theorem cone_factory_coverage_repaired : forall rho rs rd xn xt : R,
 Proof. exact cone_factory_coverage_repaired_l. Qed.
 Print Assumptions cone_factory_coverage_repaired.
 
-(* ===================== 6. slicing by angle index (__getitem__) ===================== *)
-(* Full statement "geom[i:j] has the same det_pos_init / translation / detector as geom" is FALSE for
-   the current Parallel2dGeometry.__getitem__ whenever the translation is nonzero (it passes the
-   already translated det_pos_init together with the translation).  Recorded finding
-   C19/parallel2d-getitem-translation-twice.  [par2d_getitem false] is the current code,
-   [par2d_getitem true] the repaired one (the harness measures which one /repo shows). *)
-Theorem parallel2d_slice_refuted : forall (pos : R * R) (ax : option (R * R)) (tr : R * R) (g g' : par2d),
-  mk_par2d sqrt pos ax tr = Some g -> par2d_getitem sqrt false g ax = Some g' ->
-  p2_pos g' = add2 (p2_pos g) tr /\ (tr <> (0, 0) -> p2_pos g' <> p2_pos g).
-Proof. exact par2d_getitem_current_l. Qed.
-Print Assumptions parallel2d_slice_refuted.
+(* helical_geometry: offset_along_axis = min_z and pitch = (max_z - min_z) / num_turns make the source travel exactly
+   from the bottom to the top of the volume over the angle range [0, 2 pi num_turns] *)
+Theorem helical_factory_spans_volume : forall (g : cone) (zmin zmax turns twopi : R),
+  turns <> 0 -> twopi <> 0 ->
+  c_off g = fst (helical_params zmin zmax turns) -> c_pitch g = snd (helical_params zmin zmax turns) ->
+  cone_along g 0 twopi 0 = zmin /\ cone_along g (twopi * turns) twopi 0 = zmax.
+Proof. exact helical_span. Qed.
+Print Assumptions helical_factory_spans_volume.
 
-Theorem parallel2d_slice_repaired : forall (pos : R * R) (ax : option (R * R)) (tr : R * R) (g : par2d),
-  mk_par2d sqrt pos ax tr = Some g -> par2d_getitem sqrt true g ax = Some g.
-Proof. exact par2d_getitem_fixed_l. Qed.
-Print Assumptions parallel2d_slice_repaired.
+(* cone_beam_geometry, 3-d: the detector half height sin(arctan t) (rs + rd) = t / sqrt(1 + t^2) (rs + rd) chosen before
+   the pixel round-up is strictly smaller than the t (rs + rd) that full vertical coverage needs -- for EVERY t > 0
+   (recorded finding C19/cone-beam-geometry-vertical-coverage; the round-up hides it only sometimes) *)
+Theorem cone_factory_vertical_coverage_refuted : forall t rs rd : R, 0 < t -> 0 < rs + rd ->
+  cone_factory_halfheight sqrt t rs rd < t * (rs + rd).
+Proof. exact cone_vertical_refuted. Qed.
+Print Assumptions cone_factory_vertical_coverage_refuted.
+
+(* ===================== 6. slicing by angle index (__getitem__) ===================== *)
+(* Parallel2dGeometry: geom[i:j] is rebuilt from the un-translated det_pos_init, the detector axis argument and the
+   translation, and IS the same geometry (same det_pos_init, translation, detector) -- all arguments *)
+Theorem parallel2d_slice : forall (pos : R * R) (ax : option (R * R)) (tr : R * R) (g : par2d),
+  mk_par2d sqrt pos ax tr = Some g -> par2d_getitem sqrt g ax = Some g.
+Proof. exact par2d_getitem_same_l. Qed.
+Print Assumptions parallel2d_slice.
+
+(* the defect repaired by fix 388a3ff (finding C19/parallel2d-getitem-translation-twice), kept as a statement about the
+   explicit old call: rebuilding from the TRANSLATED position plus the translation moves det_pos_init *)
+Theorem parallel2d_slice_old_call_refuted : forall (pos : R * R) (ax : option (R * R)) (tr : R * R) (g g' : par2d),
+  mk_par2d sqrt pos ax tr = Some g -> mk_par2d sqrt (p2_pos g) ax (p2_tr g) = Some g' ->
+  p2_pos g' = add2 (p2_pos g) tr /\ (tr <> (0, 0) -> p2_pos g' <> p2_pos g).
+Proof. exact par2d_getitem_old_l. Qed.
+Print Assumptions parallel2d_slice_old_call_refuted.
+
+(* The other classes: __getitem__ passes the NORMALISED axis / src_to_det_init and the ORIGINAL optional arguments.
+   For geometries built with explicit initial vectors the rebuilt geometry is identical (all detector types, radii,
+   pitch, offset, translation).  When an initial vector is defaulted it is re-derived by transform_system from the
+   normalised principal vector; its allclose test is not scale invariant, so exact identity is only validated there
+   (correspondence + probes), not proved. *)
+Theorem parallel3d_axis_slice : forall (axis pos : R * R * R) (axes : (R * R * R) * (R * R * R)) (tr : R * R * R) (g : par3a),
+  mk_par3a sqrt axis (Some pos) (Some axes) tr = Some g -> par3a_getitem sqrt g = Some g.
+Proof. exact par3a_getitem_same. Qed.
+Print Assumptions parallel3d_axis_slice.
+
+Theorem fanbeam_slice : forall (rs rd : R) (curv : option R) (s2d ax : R * R) (tr : R * R) (g : fan),
+  mk_fan sqrt rs rd curv s2d (Some ax) tr = Some g -> fan_getitem sqrt g (Some ax) = Some g.
+Proof. exact fan_getitem_same. Qed.
+Print Assumptions fanbeam_slice.
+
+Theorem conebeam_slice : forall (fixed : bool) (rs rd : R) (curv : curv3) (pitch off : R) (axis sd : R * R * R)
+    (axes : (R * R * R) * (R * R * R)) (tr : R * R * R) (g : cone),
+  mk_cone sqrt fixed rs rd curv pitch off axis (Some sd) (Some axes) tr = Some g -> cone_getitem sqrt fixed g = Some g.
+Proof. exact cone_getitem_same. Qed.
+Print Assumptions conebeam_slice.
 
 (* ============ 7. detector surface parametrisations and their derivatives ============ *)
 (* CircularDetector: surface(0) = 0; the surface is the circle of radius r about [circ_transl];
@@ -363,8 +434,8 @@ Theorem constructed_geometries_wellformed :
   (forall rs rd curv s2d axis tr g, mk_fan sqrt rs rd curv s2d axis tr = Some g ->
      dot2 (f_s2d g) (f_s2d g) = 1 /\ wf_det2 (f_det g) /\ 0 <= f_rs g /\ 0 <= f_rd g /\
      ~ (f_rs g = 0 /\ f_rd g = 0) /\ f_tr g = tr) /\
-  (forall fixed rs rd curv pitch off axis s2d axes tr g,
-     mk_cone sqrt fixed rs rd curv pitch off axis s2d axes tr = Some g ->
+  (forall rs rd curv pitch off axis s2d axes tr g,
+     mk_cone sqrt false rs rd curv pitch off axis s2d axes tr = Some g ->
      dot3 (c_axis g) (c_axis g) = 1 /\ dot3 (c_s2d g) (c_s2d g) = 1 /\ wf_det3' (c_det g) /\
      0 <= c_rs g /\ 0 <= c_rd g /\ ~ (c_rs g = 0 /\ c_rd g = 0) /\
      c_tr g = tr /\ c_pitch g = pitch /\ c_off g = off).
@@ -415,6 +486,16 @@ Theorem conebeam_frommatrix : forall (fixed : bool) (rs rd pitch off : R) m (tr 
 Proof. exact cone_frommatrix_spec. Qed.
 Print Assumptions conebeam_frommatrix.
 
+(* Parallel3dEulerGeometry.frommatrix: the Euler rotation does not commute with m, so the statement is about the
+   initial configuration: it is t + m (default initial configuration), Euler-rotated about the translation point *)
+Theorem parallel3d_euler_frommatrix : forall m (tr : R * R * R) (g : par3d) (ph th ps : R * R) (p : dpar3),
+  is_rot3 m -> par3d_frommatrix sqrt m tr = Some g ->
+  par3d_detpoint g ph th ps p =
+    add3 tr (mv3 (euler3 ph th ps) (mv3 m (par3d_detpoint par3d_default (1, 0) (1, 0) (1, 0) p))) /\
+  p3_tr g = tr.
+Proof. exact par3d_frommatrix_spec. Qed.
+Print Assumptions parallel3d_euler_frommatrix.
+
 (* ---- curved detectors with non-default axes.  Full statement "a cone beam geometry with a cylindrical or
    spherical detector built by frommatrix (or directly on rotated axes) is the rigid-motion image of the default
    one, and surface_deriv(0, 0) = radius * axes" is FALSE for the code as it is: Cylindrical/SphericalDetector
@@ -424,7 +505,7 @@ Print Assumptions conebeam_frommatrix.
    [mk_curved false] is the code as it is, [mk_curved true] the repaired alignment (matrix with columns
    -(a0 x a1), -a0, a1); the harness measures which one /repo shows.  For the repaired alignment: *)
 Theorem curved_detector_deriv_at_zero_repaired : forall (sph : bool) (a0 a1 : R * R * R) (r u v : R) (d : det3d),
-  mk_curved sqrt true sph a0 a1 r = Some d ->
+  dot3 a0 a1 = 0 -> mk_curved sqrt true sph a0 a1 r = Some d ->
   deriv3 d (u, v, (1, 0), (1, 0)) =
   (scal3 r (fst (det3_axes d)), if sph then scal3 r (snd (det3_axes d)) else snd (det3_axes d)).
 Proof. exact mk_curved_fixed_deriv. Qed.
@@ -453,11 +534,11 @@ Example default_geometries_are_constructed :
                match f_det g with Flat1 (a0, a1) => Qeq_bool a0 1 && Qeq_bool a1 0 | _ => false end
    | None => false end) = true.
 Proof. split; vm_compute; reflexivity. Qed.
-(* slicing a translated Parallel2dGeometry succeeds and (current code) moves det_pos_init *)
+(* slicing a translated Parallel2dGeometry succeeds and keeps det_pos_init; the old call moved it *)
 Example slice_instance :
   (match mk_par2d Qsqrt (3, 4)%Q None (1, 2)%Q with
-   | Some g => match par2d_getitem Qsqrt false g None, par2d_getitem Qsqrt true g None with
-               | Some g1, Some g2 => Qeq_bool (fst (p2_pos g1)) 5 && Qeq_bool (snd (p2_pos g1)) 8 &&
+   | Some g => match par2d_getitem Qsqrt g None, mk_par2d Qsqrt (p2_pos g) None (p2_tr g) with
+               | Some g2, Some g1 => Qeq_bool (fst (p2_pos g1)) 5 && Qeq_bool (snd (p2_pos g1)) 8 &&
                                      Qeq_bool (fst (p2_pos g2)) 4 && Qeq_bool (snd (p2_pos g2)) 6
                | _, _ => false end
    | None => false end) = true.
